@@ -46,7 +46,8 @@ class C01(Prop):
                 nproc = 2
             renv = r.choice(G.ENVS)
             ops += [{"op": "dumpfs"}, {"op": "newprocess"}] + cfgops + [G.op_setenv(renv[0], renv[1])]
-            ops += G.run_program(r, last, r.weighted([(1, 3), (2, 1)])) + [{"op": "dumpfs"}]
+            # (the replay may execute every test several times, -count=3 and more: the ordinals start again each time)
+            ops += G.run_program(r, last, r.weighted([(1, 3), (2, 1), (3, 1), (5, 1)])) + [{"op": "dumpfs"}]
             cases.append({"ci": env1[0], "updvar": env1[1], "colour": False, "ops": ops,
                           "meta": {"kind": kind, "nproc": nproc}})
         return cases
